@@ -333,3 +333,13 @@ func (h *harness) doOutside(s int, st Step) (string, *verr) {
 	}
 	return st.String(), newVerr("harness-error", "unknown step kind %q", st.K)
 }
+
+// lastGen: the youngest generation of address ai other than not (nil if none).
+func (h *harness) lastGen(ai int, not *attempt) *attempt {
+	for i := len(h.atts) - 1; i >= 0; i-- {
+		if t := h.atts[i]; t.ai == ai && t != not {
+			return t
+		}
+	}
+	return nil
+}
